@@ -156,7 +156,7 @@ def model_arrays(model, prefix=''):
 # data
 # ---------------------------------------------------------------------------
 
-def make_data(rng, kind, lead, K, N, D, cls='gauss', dtype=None, E=None, spread=3.0):
+def make_data(rng, kind, lead, K, N, D, cls='gauss', dtype=None, E=None, spread=3.0, offset=0.0):
     """Observation dict for a model kind. For integration models lead must be (F,) and N = T."""
     if kind in COMPLEX:
         dt = dtype or np.complex128
@@ -167,6 +167,9 @@ def make_data(rng, kind, lead, K, N, D, cls='gauss', dtype=None, E=None, spread=
         dt = dtype or np.float64
         y, lab = gen.planted_rmixture(rng, lead, K, N, D, dtype=dt, spread=spread)
         y = gen.hostile(rng, y, cls, real=True)
+        if offset:
+            # data far from the origin relative to its spread (|mean|/std = offset): exposes cancellation in E[y^2] - mean^2 rewrites
+            y = (y + offset * float(np.std(y)) * oracles.unit(rng.standard_normal((1,) * (y.ndim - 1) + (D,)))).astype(y.dtype)
         return dict(y=y, lab=lab)
     # integration: same labels for both streams
     F, = lead
@@ -175,5 +178,7 @@ def make_data(rng, kind, lead, K, N, D, cls='gauss', dtype=None, E=None, spread=
     y, lab = gen.planted_cmixture(rng, lead, K, N, D, dtype=dt)
     means = rng.standard_normal((K, E)) * spread
     e = means[lab] + 0.5 * rng.standard_normal((F, N, E))
+    if offset:
+        e = e + offset * float(np.std(e)) * oracles.unit(rng.standard_normal((1, 1, E)))
     y = gen.hostile(rng, y, cls)
     return dict(y=y, e=e.astype(np.float32 if dt == np.complex64 else np.float64), lab=lab)
